@@ -130,6 +130,30 @@ def _sinks(fn, n):
     return None
 
 
+_COPIED_MEMO = {}
+_COPIED_SINK = {}
+
+
+def _copied_params(prog, pv, h):
+    """indices of the parameters of h that h copies (clone / to_owned ..) into its result or an output position"""
+    if h.def_path in _COPIED_MEMO:
+        return _COPIED_MEMO[h.def_path]
+    out = set()
+    _COPIED_MEMO[h.def_path] = out
+    for n in h.nodes():
+        if hir.is_call(n) and (hir.callee_name(n) or n.get("method")) in COPIES:
+            recv = hir.call_args(n)[0]
+            if not _ast_ty(hir.peel(recv).get("ty")):
+                continue
+            if not sinks_into_output(h, n):
+                continue
+            for r, p in pv.origins(h, recv):
+                if r[0] == "param" and r[1] == h.def_path and not [q for q in p if q != "[]" and not re.match(r"^[A-Z][A-Za-z]*\.\d+$", str(q))]:
+                    out.add(r[2])
+                    _COPIED_SINK.setdefault((h.def_path, r[2]), sinks_into_output(h, n))
+    return out
+
+
 def candidates(prog, fns):
     pv = Prov(prog)
     out = []
@@ -149,6 +173,30 @@ def candidates(prog, fns):
                 sink = sinks_into_output(f, n)
                 if roots and sink:
                     sites.append((n, roots, sink))
+        # copies made by a crate helper: `h(&input.part, ..)` where h clones that parameter into what it
+        # returns - the call is a copy site of `input.part`, placed wherever the call's value goes
+        for n in f.nodes():
+            if not hir.is_call(n) or n.get("exp"):
+                continue
+            h = prog.resolve_local(n)
+            if h is None or h is f or h.body is None or h.rec.get("gen"):
+                continue
+            copied = _copied_params(prog, pv, h)
+            if not copied:
+                continue
+            roots = set()
+            for i_ in copied:
+                a_ = hir.call_args(n)
+                if i_ >= len(a_) or not (_ast_ty(hir.peel(a_[i_]).get("ty")) or _ast_ty(a_[i_].get("ty"))):
+                    continue
+                for r, p in pv.origins(f, a_[i_]):
+                    if r[0] == "param" and r[1] == f.def_path:
+                        roots.add((r[2],) + tuple(q for q in p if q != "[]"))
+            roots = {r for r in roots if r}
+            # where the copy lands: the structure the helper builds around it
+            sink = _COPIED_SINK.get((h.def_path, sorted(copied)[0])) or sinks_into_output(f, n)
+            if roots and sink:
+                sites.append((n, roots, sink))
         for i in range(len(sites)):
             for j in range(i + 1, len(sites)):
                 a, ra, sa = sites[i]
